@@ -55,6 +55,12 @@ def _mk_symbols(spec):
         elif k == 'fun':
             mul, add = sp['mul'], sp['add']
             out[name] = (lambda mul, add: (lambda x: x * mul + add))(mul, add)
+        elif k == 'badexc':
+            class BrokenStrError(Exception):
+                """An application exception whose __str__ does not return a string."""
+                def __str__(self):
+                    return self.args[0]
+            out[name] = BrokenStrError
         elif k == 'counter':
             def bump(what=None, _log=None):
                 bump.log.append(what)
@@ -210,7 +216,7 @@ def _gen_env(r, variant, flags):
     if flags['extra'] and (not flags['vary'] or r.random() < 0.5):
         cfg.append(['extra', 900 + variant])         # programs read it: NameError in the builds that lack it
     r.shuffle(cfg)
-    syms = {'bump': {'k': 'counter'}, '__dsym': {'k': 'val', 'v': 70 + variant}, 's1': {'k': 'val', 'v': 10 * (variant + 1)}, 'scale': {'k': 'fun', 'mul': 2 + variant, 'add': variant},
+    syms = {'bump': {'k': 'counter'}, 'BrokenStr': {'k': 'badexc'}, '__dsym': {'k': 'val', 'v': 70 + variant}, 's1': {'k': 'val', 'v': 10 * (variant + 1)}, 'scale': {'k': 'fun', 'mul': 2 + variant, 'add': variant},
             'ctxm': {'k': 'cm', 'd': variant}}
     if flags['shared'] and r.random() < 0.6:
         syms['shared'] = {'k': 'val', 'v': 1000 + variant}     # a symbol shadows the config entry of the same name
@@ -240,6 +246,10 @@ def _gen_evals(r, env, n):
                                    "[('cm' in ayns.cfg), ('nonexistent' in ayns.cfg), bool(ayns.cfg)]", 'sorted(str(k_) for k_ in ayns.cfg)'])]
             else:
                 lines = g.program(max_stmts=r.choice([0, 1, 2, 4, 6]))
+                if r.random() < 0.03:
+                    # an application exception that cannot even be printed: it is the cause all the same
+                    lines = lines[:-1] + r.choice([['if ca:', '    raise BrokenStr(404)'], ['def chk_(v_):', '    raise BrokenStr(v_)', 'chk_(cb)']]) + [lines[-1]]
+                    g.features.add('exception_with_broken_str')
                 if r.random() < 0.02:
                     # user code that recurses without end: a RecursionError is a user exception like any other
                     lines = ['def rr_(n_):', '    return rr_(n_ + 1) + ca', f'[{lines[-1]}, rr_(0)]']
